@@ -1,5 +1,8 @@
 """reference transcriptions (confirmed by reading on the pinned tree) for C18.e/f: the conservative weight move of impose_collapse, weight normalisation, and the distance metrics"""
 REFS = {
+    # the same move in two phases (group sums first, then the stores): equivalent as long as the groups are disjoint - what tools.connected returns (C18.i)
+    'mystic.math.measures:impose_collapse#two-phase':
+        'def impose_collapse(pairs, samples, weights):\n    samples, weights = (list(samples), list(weights))\n    m = mean(samples, weights)\n    pairs = zip(*tuple((tuple((len(weights) + i if i < 0 else i for i in j)) for j in zip(*pairs))))\n    from mystic.tools import connected\n    pairs = connected(pairs)\n    mass = {}\n    for i, j in pairs.items():\n        v = weights[i]\n        for k in j:\n            v += weights[k]\n        mass[i] = v\n    for i, j in pairs.items():\n        for k in j:\n            weights[k] = type(mass[i])(0.0)\n            samples[k] = samples[i]\n    for i, v in mass.items():\n        weights[i] = v\n    return (impose_mean(m, samples, weights), weights)\n',
     'mystic.math.measures:impose_collapse':
         'def impose_collapse(pairs, samples, weights):\n    samples, weights = (list(samples), list(weights))\n    m = mean(samples, weights)\n    pairs = zip(*tuple((tuple((len(weights) + i if i < 0 else i for i in j)) for j in zip(*pairs))))\n    from mystic.tools import connected\n    pairs = connected(pairs)\n    for i, j in pairs.items():\n        v = weights[i]\n        for k in j:\n            v += weights[k]\n            weights[k] = type(v)(0.0)\n            samples[k] = samples[i]\n        weights[i] = v\n    return (impose_mean(m, samples, weights), weights)\n',
     'mystic.math.measures:normalize':
@@ -23,7 +26,7 @@ REFS = {
     'mystic.math.distance:manhattan':
         'def manhattan(x, xp=None, pair=False, dmin=0, axis=None):\n    return minkowski(x, xp, pair=pair, dmin=dmin, p=1, axis=axis)\n',
     'mystic.math.distance:absolute_distance':
-        'def absolute_distance(x, xp=None, pair=False, dmin=0):\n    from numpy import abs, asarray, newaxis as nwxs, zeros_like\n    x = asarray(x)\n    if x.dtype.kind != \'c\':\n        x = x.astype(float)\n    xp = x if xp is None else asarray(xp)\n    if xp.dtype.kind != \'c\':\n        xp = xp.astype(float)\n    xsize = max(len(x.shape), len(xp.shape), dmin)\n    while len(x.shape) < xsize:\n        x = x[nwxs]\n    while len(xp.shape) < xsize:\n        xp = xp[nwxs]\n    if pair:\n        return abs(x.T - xp.T).T\n    xsl = (slice(None),) * xsize + (None,)\n    xpsl = (slice(None),) * max(0, xsize - 1) + (None,)\n    return abs(x.T[xsl] - xp.T[xpsl])\n',
+        'def absolute_distance(x, xp=None, pair=False, dmin=0):\n    from numpy import abs, asarray, newaxis as nwxs, zeros_like\n    from numpy import result_type\n    _wide = lambda t: result_type(t, complex if t.kind == \'c\' else float) if t.kind in \'fc\' else float\n    x = asarray(x)\n    x = x.astype(_wide(x.dtype))\n    xp = x if xp is None else asarray(xp)\n    xp = xp.astype(_wide(xp.dtype))\n    xsize = max(len(x.shape), len(xp.shape), dmin)\n    while len(x.shape) < xsize:\n        x = x[nwxs]\n    while len(xp.shape) < xsize:\n        xp = xp[nwxs]\n    if pair:\n        return abs(x.T - xp.T).T\n    xsl = (slice(None),) * xsize + (None,)\n    xpsl = (slice(None),) * max(0, xsize - 1) + (None,)\n    return abs(x.T[xsl] - xp.T[xpsl])\n',
     'mystic.math.measures:support_index':
         'def support_index(weights, tol=0):\n    return [i for i, w in enumerate(weights) if w > tol]\n',
     'mystic.math.measures:support':
